@@ -210,6 +210,12 @@ func TestC08WholePackets(t *testing.T) {
 				close(quit)
 				h.PollQuiet(quiet, func() bool { return h.IsDone(dc) })
 			}
+			// (faults armed earlier must not park the released writer again)
+			h.WithLock(func() {
+				for _, cc := range h.Conns {
+					cc.ClearFaultsLocked()
+				}
+			})
 			for _, cc := range h.AllConns() {
 				for cc.ReleaseWrite() {
 				}
